@@ -2960,7 +2960,9 @@ class Qube(object):
         self.require_writable()
 
         # Handle a simple right-hand value...
-        if self._rank_ == 0 and isinstance(arg, (numbers.Real, np.ndarray)):
+        # (an array is only handled here if it can be updated in place)
+        if (self._rank_ == 0 and isinstance(arg, (numbers.Real, np.ndarray))
+            and (np.shape(self._values_) or not np.shape(arg))):
             self._values_ += arg
             self._new_values_()
             return self
@@ -2985,6 +2987,8 @@ class Qube(object):
 
         if self._denom_ != arg._denom_:
             Qube._raise_incompatible_denoms('+=', self, arg)
+
+        self._require_broadcast_into('+=', arg)
 
         # Perform the operation
         if self.is_int() and not arg.is_int():
@@ -3080,7 +3084,9 @@ class Qube(object):
         self.require_writable()
 
         # Handle a simple right-hand value...
-        if self._rank_ == 0 and isinstance(arg, (numbers.Real, np.ndarray)):
+        # (an array is only handled here if it can be updated in place)
+        if (self._rank_ == 0 and isinstance(arg, (numbers.Real, np.ndarray))
+            and (np.shape(self._values_) or not np.shape(arg))):
             self._values_ -= arg
             self._new_values_()
             return self
@@ -3105,6 +3111,8 @@ class Qube(object):
 
         if self._denom_ != arg._denom_:
             Qube._raise_incompatible_denoms('-=', self, arg)
+
+        self._require_broadcast_into('-=', arg)
 
         # Perform the operation
         if self.is_int() and not arg.is_int():
@@ -3235,6 +3243,8 @@ class Qube(object):
             if self._rank_ and np.shape(arg_values):
                 arg_values = arg_values.reshape(np.shape(arg_values) +
                                                 self._rank_ * (1,))
+
+            self._require_broadcast_into('*=', arg)
 
             # Multiply...
             if self.is_int() and not arg.is_int():
@@ -3592,6 +3602,7 @@ class Qube(object):
             if self._rank_:
                 div_values = np.reshape(div_values, np.shape(div_values) +
                                                     self._rank_ * (1,))
+            self._require_broadcast_into('//=', arg)
             self._values_ //= div_values
             self._mask_ = self._mask_ | divisor._mask_
             self._units_ = Units.div_units(self._units_, arg._units_)
@@ -3724,6 +3735,7 @@ class Qube(object):
             if self._rank_:
                 div_values = np.reshape(div_values, np.shape(div_values) +
                                                     self._rank_ * (1,))
+            self._require_broadcast_into('%=', arg)
             self._values_ %= div_values
             self._mask_ = self._mask_ | divisor._mask_
             self._units_ = Units.div_units(self._units_, arg._units_)
@@ -4104,10 +4116,11 @@ class Qube(object):
     def __iand__(self, arg):
         self.require_writable()
 
-        if isinstance(arg, np.ma.MaskedArray):
+        if isinstance(arg, np.ndarray):
             arg = Qube.BOOLEAN_CLASS(arg != 0)
 
         if isinstance(arg, Qube):
+            self._require_broadcast_into('&=', arg)
             self._values_ &= (arg._values_ != 0)
             self._mask_ = Qube.or_(self._mask_, arg._mask_)
         else:
@@ -4120,10 +4133,11 @@ class Qube(object):
     def __ior__(self, arg):
         self.require_writable()
 
-        if isinstance(arg, np.ma.MaskedArray):
+        if isinstance(arg, np.ndarray):
             arg = Qube.BOOLEAN_CLASS(arg != 0)
 
         if isinstance(arg, Qube):
+            self._require_broadcast_into('|=', arg)
             self._values_ |= (arg._values_ != 0)
             self._mask_ = Qube.or_(self._mask_, arg._mask_)
         else:
@@ -4136,10 +4150,11 @@ class Qube(object):
     def __ixor__(self, arg):
         self.require_writable()
 
-        if isinstance(arg, np.ma.MaskedArray):
+        if isinstance(arg, np.ndarray):
             arg = Qube.BOOLEAN_CLASS(arg != 0)
 
         if isinstance(arg, Qube):
+            self._require_broadcast_into('^=', arg)
             self._values_ ^= (arg._values_ != 0)
             self._mask_ = Qube.or_(self._mask_, arg._mask_)
         else:
@@ -4499,6 +4514,14 @@ class Qube(object):
         opstr = obj1._opstr(op)
         raise ValueError('incompatible shapes for %s: %s, %s'
                          % (opstr, obj1._shape_, obj2._shape_))
+
+    #===========================================================================
+    def _require_broadcast_into(self, op, arg):
+        """Raise a ValueError unless the shape of arg can be broadcast into the
+        shape of this object, as every in-place operation requires."""
+
+        if Qube.broadcasted_shape(self._shape_, arg._shape_) != self._shape_:
+            Qube._raise_incompatible_shape(op, self, arg)
 
     #===========================================================================
     @staticmethod
